@@ -1,6 +1,6 @@
 """C13 — events normalise to UTC milliseconds and survive JSON round trips."""
 import sys
-from datetime import datetime, timedelta, timezone
+from datetime import datetime, timedelta, timezone, tzinfo
 from fractions import Fraction
 
 import z3
@@ -190,6 +190,81 @@ def h_iso_strings(x):
     return obl, [text]
 
 
+class FoldZone(tzinfo):
+    """a zone with daylight saving time for the year 2021, PEP 495 aware: std / dst offsets in minutes, DST from
+    `on` (standard wall time) to `off` (daylight wall time); southern zones have off < on"""
+
+    def __init__(self, name, std, dst, on, off):
+        self.name, self.std, self.dstoff, self.on, self.off = name, std, dst, on, off
+
+    def _is_dst(self, dt):
+        wall = dt.replace(tzinfo=None)
+        shift = timedelta(minutes=self.dstoff - self.std)
+        # spring forward: walls in [on, on+shift) do not exist; fold=0 keeps the offset before the transition
+        # fall back: walls in [off-shift, off) happen twice; fold=0 is the first (daylight) occurrence
+        if self.on < self.off:
+            if wall < self.on or wall >= self.off:
+                return False
+            if wall < self.on + shift:
+                return bool(dt.fold)
+            if wall >= self.off - shift:
+                return not dt.fold
+            return True
+        # southern hemisphere: daylight time at both ends of the year
+        if self.off <= wall < self.on:
+            return False
+        if self.off - shift <= wall < self.off:
+            return not dt.fold
+        if self.on <= wall < self.on + shift:
+            return bool(dt.fold)
+        return True
+
+    def utcoffset(self, dt):
+        return timedelta(minutes=self.dstoff if self._is_dst(dt) else self.std)
+
+    def dst(self, dt):
+        return timedelta(minutes=self.dstoff - self.std) if self._is_dst(dt) else timedelta(0)
+
+    def tzname(self, dt):
+        return self.name
+
+
+DST_ZONES = [
+    ("berlin-like +01/+02", 60, 120, datetime(2021, 3, 28, 2), datetime(2021, 10, 31, 3)),
+    ("new-york-like -05/-04", -300, -240, datetime(2021, 3, 14, 2), datetime(2021, 11, 7, 2)),
+    ("lord-howe-like +10:30/+11 (half-hour shift, southern)", 630, 660, datetime(2021, 10, 3, 2), datetime(2021, 4, 4, 2)),
+]
+DST_MICROS = [0, 1, 999, 1000, 500500, 999999]
+
+
+def h_dst_zones(x):
+    """aware datetimes in zones with daylight saving time, at and around both transitions, both values of fold:
+    the event holds wall - utcoffset(wall, fold), floored to the millisecond, in UTC"""
+    zi = x.choice("zone", len(DST_ZONES))
+    name, std, dstoff, on, off = DST_ZONES[zi]
+    zone = FoldZone(name, std, dstoff, on, off)
+    shift = timedelta(minutes=dstoff - std)
+    walls = [off - shift - timedelta(hours=1), off - shift, off - shift / 2, off - timedelta(microseconds=1000), off, on - timedelta(seconds=1), on, on + shift / 2, on + shift]
+    wall = walls[x.choice("wall", len(walls))]
+    fold = x.choice("fold", 2)
+    micro = DST_MICROS[x.choice("micro", len(DST_MICROS))]
+    wall = wall.replace(microsecond=micro)
+    d = x.zint("d", 0, D_MAX_US)
+    ts = wall.replace(tzinfo=zone, fold=fold)
+    # reference: integer arithmetic on the wall clock reading and the offset the zone reports for (wall, fold)
+    off_min = dstoff if zone._is_dst(ts) else std
+    wall_us = (wall - datetime(1970, 1, 1)) // timedelta(microseconds=1)
+    want = wall_us - off_min * 60 * 10**6
+    e = Event(id=1, timestamp=ts, duration=x.td_us(d), data={"k": 1})
+    obl = [("dst-zone-instant-floored-to-ms", S.dt_us(e.timestamp) == want - want % 1000), ("dst-zone-timestamp-is-utc", is_utc(e.timestamp)), ("duration-kept", S.td_us(e.duration) == d)]
+    e2 = Event(id=2, timestamp=datetime(2020, 1, 1, tzinfo=timezone.utc), duration=x.td_us(d), data={})
+    e2.timestamp = ts
+    obl.append(("dst-zone-through-setter", S.dt_us(e2.timestamp) == want - want % 1000))
+    back = Event(**e.to_json_dict())
+    obl.append(("json-roundtrip", And(S.dt_us(back.timestamp) == want - want % 1000, S.td_us(back.duration) == d, back.id == 1)))
+    return obl, [name, str(wall), fold]
+
+
 def h_bad_duration(x):
     u, off, ts = instant(x)
     obl = []
@@ -278,6 +353,7 @@ def harnesses(tier):
         hs.append((Harness(PROP, "normalise-%s" % k, h_normalise, dict(durkind=k), "Event() with symbolic instant (us) + UTC offset; duration given as %s; setters; JSON / copy round trip (exact arithmetic)" % k), 300))
     hs.append((Harness(PROP, "json-text", h_json_text, {}, "JSON form rendered and parsed character by character: 4 concrete seconds x 4 offsets x 5 ids, symbolic microsecond and duration"), 600))
     hs.append((Harness(PROP, "iso-string-inputs", h_iso_strings, {}, "timestamps given as ISO-8601 strings: %d dates x %d fractions x %d offsets (Z, positive, negative with minutes, compact), symbolic duration" % (len(ISO_DATES), len(ISO_FRACTIONS), len(ISO_OFFSETS))), 600))
+    hs.append((Harness(PROP, "dst-zone-inputs", h_dst_zones, {}, "aware datetimes in %d zones with daylight saving time (PEP 495 fold 0 and 1): 9 wall-clock readings at and around both transitions x %d microsecond values, symbolic duration" % (len(DST_ZONES), len(DST_MICROS))), 600))
     hs.append((Harness(PROP, "bad-duration", h_bad_duration, {}, "non-number durations raise TypeError"), 60))
     hs.append((Harness(PROP, "ieee-ms-floor", h_ms_floor_ieee, {}, "real _timestamp_parse with IEEE-rounded division: all 10^6 microsecond values at any date", cross_solver=2), 600))
     hs.append((Harness(PROP, "ieee-float-duration", h_float_duration_ieee, {}, "Event(duration=float seconds) under IEEE rounding"), 600))
@@ -292,6 +368,7 @@ def meta(chk, tier):
         "instants: every integer microsecond in [1970, ~2103]; UTC offset every whole minute in [-14 h, +14 h] (symbolic)",
         "durations: timedelta any integer us in [-30 d, 30 d]; int seconds in [-1e7, 1e7]; float seconds: every real (hence every double) in [0, 30 d]",
         "ISO-8601 string inputs: concrete pool of 4 dates x 6 fractions x 10 offsets (the real iso8601 regex runs on them), duration symbolic",
+        "zones with daylight saving time: %d own tzinfo implementations (PEP 495), wall-clock readings at and around the repeated and the skipped hour, fold 0 and 1" % len(DST_ZONES),
         "IEEE lemmas: rounded-real encoding of double arithmetic (round to nearest, ties either way), one query per binade where needed",
     ]
     chk.stubs = ["aw_core.models.int -> sym_int", "aw_core.models.timedelta -> sym_timedelta (documented modf / one rounded product / round-to-nearest algorithm in IEEE mode)",
